@@ -12,6 +12,7 @@ package queue
 import (
 	"context"
 	"fmt"
+	"net"
 	"os"
 	"sort"
 	"strings"
@@ -19,10 +20,12 @@ import (
 	"time"
 
 	"github.com/emersion/go-smtp"
+	"github.com/foxcpp/go-mockdns"
 	"github.com/foxcpp/maddy/framework/buffer"
 	"github.com/foxcpp/maddy/framework/config"
 	"github.com/foxcpp/maddy/framework/log"
 	"github.com/foxcpp/maddy/framework/module"
+	remotetarget "github.com/foxcpp/maddy/internal/target/remote"
 	smtptarget "github.com/foxcpp/maddy/internal/target/smtp"
 	"github.com/foxcpp/maddy/internal/verifx"
 	"pgregory.net/rapid"
@@ -31,6 +34,7 @@ import (
 
 type c01rScenario struct {
 	LMTP     bool                `json:"lmtp"`
+	Remote   bool                `json:"remote_mx,omitempty"` // target.remote (MX lookup, connection cache, per-recipient statuses) instead of target.smtp/lmtp
 	HopUTF8  bool                `json:"next_hop_smtputf8"`
 	MaxTries int                 `json:"max_tries"`
 	Null     bool                `json:"null_sender"`
@@ -43,7 +47,14 @@ var c01rRcpts = []string{"a@example.org", "b@example.org", "c@example.org", "d@x
 func c01rGen(t *rapid.T) c01rScenario {
 	sc := c01rScenario{LMTP: rapid.Bool().Draw(t, "lmtp"), HopUTF8: rapid.Bool().Draw(t, "hoputf8"), MaxTries: rapid.IntRange(1, 4).Draw(t, "max_tries"),
 		Null: rapid.IntRange(0, 7).Draw(t, "null") == 0}
-	sc.Rcpts = rapid.SliceOfNDistinct(rapid.IntRange(0, len(c01rRcpts)-1), 1, 3, rapid.ID[int]).Draw(t, "rcpts")
+	if !sc.LMTP && rapid.IntRange(0, 2).Draw(t, "remote") == 0 {
+		sc.Remote = true
+	}
+	nr := len(c01rRcpts) - 1
+	if sc.Remote {
+		nr = 2 // one recipient domain, so that one attempt is one transaction at the next hop
+	}
+	sc.Rcpts = rapid.SliceOfNDistinct(rapid.IntRange(0, nr), 1, 3, rapid.ID[int]).Draw(t, "rcpts")
 	for a := 0; a < sc.MaxTries; a++ {
 		p := map[string]string{}
 		switch rapid.IntRange(0, 9).Draw(t, "txfault") {
@@ -90,15 +101,28 @@ func c01rRun(sc c01rScenario) (vs []ev.V) {
 	}
 	defer hop.Close()
 	hop.Plans = sc.Plans
-	name := "target.smtp"
-	if sc.LMTP {
-		name = "target.lmtp"
-	}
-	mod, _ := smtptarget.NewDownstream(name, "verif", nil, []string{"tcp://" + hop.Addr})
-	down := mod.(*smtptarget.Downstream)
-	if err := down.Init(config.NewMap(map[string]interface{}{"hostname": "mx.maddy.test"}, config.Node{Children: []config.Node{{Name: "starttls", Args: []string{"no"}}}})); err != nil {
-		r.HarnessError("downstream init: %v", err)
-		return nil
+	var down module.DeliveryTarget
+	if sc.Remote {
+		rt := remotetarget.VerifNewTarget("mx.maddy.test", map[string]mockdns.Zone{
+			"example.org.":    {MX: []net.MX{{Host: "mx.example.org.", Pref: 10}}},
+			"mx.example.org.": {A: []string{"127.0.0.1"}},
+		}, func(ctx context.Context, network, addr string) (net.Conn, error) {
+			return (&net.Dialer{}).DialContext(ctx, "tcp", hop.Addr)
+		})
+		defer rt.Close()
+		down = rt
+	} else {
+		name := "target.smtp"
+		if sc.LMTP {
+			name = "target.lmtp"
+		}
+		mod, _ := smtptarget.NewDownstream(name, "verif", nil, []string{"tcp://" + hop.Addr})
+		d := mod.(*smtptarget.Downstream)
+		if err := d.Init(config.NewMap(map[string]interface{}{"hostname": "mx.maddy.test"}, config.Node{Children: []config.Node{{Name: "starttls", Args: []string{"no"}}}})); err != nil {
+			r.HarnessError("downstream init: %v", err)
+			return nil
+		}
+		down = d
 	}
 	dir, err := os.MkdirTemp("", "c01real")
 	if err != nil {
@@ -195,14 +219,20 @@ func c01rRun(sc c01rScenario) (vs []ev.V) {
 		}
 		return b.String()
 	}
-	if len(txs) > sc.MaxTries {
+	// (target.remote opens a transaction per recipient domain and again after a refused MAIL, so one attempt can
+	// be several transactions there; the per-recipient bound below still applies)
+	if len(txs) > sc.MaxTries && !sc.Remote {
 		vs = append(vs, ev.Vf("real:more-attempts-than-max-tries", "the next hop saw %d transactions, max_tries is %d%s", len(txs), sc.MaxTries, describe()))
 	}
 	for _, tx := range txs {
 		if strings.HasPrefix(tx.MailErr, "P") {
-			// every recipient of the message fails permanently with the transaction
-			for _, f := range fates {
-				f.permAt = append(f.permAt, tx.N)
+			// every recipient of the message fails permanently with the transaction - except with
+			// target.remote, which issues MAIL on behalf of the recipient it is adding: the next hop
+			// cannot tell which one that was
+			if !sc.Remote {
+				for _, f := range fates {
+					f.permAt = append(f.permAt, tx.N)
+				}
 			}
 			continue
 		}
@@ -315,6 +345,6 @@ func TestVerifC01Real(t *testing.T) {
 		for _, p := range sc.Plans {
 			faults += len(p)
 		}
-		return ev.Info{Nontrivial: faults > 0 && len(sc.Rcpts) > 1, Classes: []string{fmt.Sprintf("lmtp=%v", sc.LMTP)}}
+		return ev.Info{Nontrivial: faults > 0 && len(sc.Rcpts) > 1, Classes: []string{fmt.Sprintf("lmtp=%v", sc.LMTP), fmt.Sprintf("remote=%v", sc.Remote)}}
 	}})
 }
